@@ -4,7 +4,7 @@
 # (2) the demonstration fails with the change and (3) passes without it; then runs the property's
 # quick check against a scratch copy with the change.  On success the change is kept as
 # /verif/seeded/<ID>_<k>/ {patch.diff, demo.py, meta.json}.  The worktree is removed in every case.
-ID="$1"; K="$2"; SRC="/tmp/mut/$ID"
+ID="$1"; K="$2"; SRC="${MUT_SRC:-/tmp/mut}/$ID"; KOUT="${3:-$K}"
 WT="$(mktemp -d /tmp/cs_${ID}_${K}_XXXX)"; rmdir "$WT"
 git -C /repo worktree add -q --detach "$WT" HEAD || exit 2
 cleanup() { git -C /repo worktree remove --force "$WT" 2>/dev/null; rm -rf "$WT"; }
@@ -22,7 +22,7 @@ CHECK_RC=$?
 echo "$ID/$K: suite=[$SUITE] demo_with=$RC_WITH demo_without=$RC_WITHOUT check_exit=$CHECK_RC"
 case "$SUITE" in *"542 passed"*) OKS=1;; *) OKS=0;; esac
 if [ "$OKS" = 1 ] && [ "$RC_WITH" != 0 ] && [ "$RC_WITHOUT" = 0 ]; then
-  D="/verif/seeded/${ID}_${K}"; mkdir -p "$D"
+  D="/verif/seeded/${ID}_${KOUT}"; mkdir -p "$D"
   cp "$SRC/patch_$K.diff" "$D/patch.diff"; cp "$SRC/demo_$K.py" "$D/demo.py"
   /verif/.venv/bin/python - "$SRC/meta_$K.json" "$D/meta.json" "$ID" "$SUITE" "$RC_WITH" "$RC_WITHOUT" "$CHECK_RC" "$DEMO_TAIL" "$CHECK_OUT" <<'PY'
 import json, sys
